@@ -14,6 +14,7 @@ import (
 	"testing"
 	"time"
 
+	"github.com/hashicorp/nodeenrollment"
 	nodenet "github.com/hashicorp/nodeenrollment/net"
 	"pgregory.net/rapid"
 	"verifharness/vkit"
@@ -95,6 +96,16 @@ func runImpl(t vkit.TB, order []string, grace time.Duration, conns map[int]*ccon
 	l, err := nodenet.NewMultiplexingListener(ctx, &net.TCPAddr{})
 	if err != nil {
 		t.Fatalf("NewMultiplexingListener: %v", err)
+	}
+	// two thirds of the orders without a parent cancel run on a multiplexing listener
+	// handed out by a SplitListener (with and without native connections) instead of a
+	// directly constructed one; the connections ingressed here are of a type of their own
+	if src := listenerSources.Add(1) % 3; src != 0 && !contains(order, "x") {
+		sub, gerr := sharedSplit().GetListener(fmt.Sprintf("c18-%d", listenerSources.Load()), nodeenrollment.WithNativeConns(src == 2))
+		if gerr != nil {
+			t.Fatalf("GetListener: %v", gerr)
+		}
+		l = sub.(*nodenet.MultiplexingListener)
 	}
 	led := &ledger{returned: map[int]int{}}
 	var closeDone atomic.Int64
@@ -320,6 +331,35 @@ func perms(items []string) [][]string {
 	}
 	rec(nil, make([]bool, len(items)))
 	return out
+}
+
+var listenerSources atomic.Int64
+
+var (
+	splitOnce sync.Once
+	split     *nodenet.SplitListener
+)
+
+// sharedSplit is one SplitListener (never started) that hands out fresh sub-listeners.
+func sharedSplit() *nodenet.SplitListener {
+	splitOnce.Do(func() {
+		w := vkit.NewWorld(vkit.WorldConfig{})
+		rig := vkit.NewRig(w, vkit.RigConfig{Manual: true})
+		var err error
+		if split, err = nodenet.NewSplitListener(rig.Ln); err != nil {
+			panic(err)
+		}
+	})
+	return split
+}
+
+func contains(l []string, x string) bool {
+	for _, e := range l {
+		if e == x {
+			return true
+		}
+	}
+	return false
 }
 
 // preCancelled: orders that start with the parent cancel are also run with the
